@@ -229,15 +229,21 @@ Proof.
       apply (T_for_each L). intros x Hx. apply empty_orphan_decided; [exact Hc|]. rewrite forallb_forall in Hes. apply Hes. exact Hx. }
     assert (Hh : forall u ev, ev_clean ev -> T L (empty_handle o u ev) (fun _ => True)).
     { intros u ev Hev. destruct ev; simpl; try (apply (T_ret L); exact I). apply Hdir. exact Hev. }
-    assert (Htop : forall v, ev_clean (Found (join3 v ($".Trash") (dec_of_N (eo_uid o))) v)
-                          /\ ev_clean (SkippedNotSticky (join3 v ($".Trash") (dec_of_N (eo_uid o))))
-                          /\ ev_clean (SkippedSymlink (join3 v ($".Trash") (dec_of_N (eo_uid o))))
-                          /\ ev_clean (Found (join2 v ($".Trash-" ++ dec_of_N (eo_uid o))) v)).
-    { intros v. split; [apply top1_clean|split; [exact I|split; [exact I|apply top2_clean]]]. }
+    assert (Htop : forall uid, top_events ev_clean uid).
+    { intros uid v. split; [apply top1_clean|split; [exact I|split; [exact I|apply top2_clean]]]. }
     assert (Hhome : forall p, In p (home_trash_dir_path_from_env env) -> ev_clean (Found p [c_slash])).
     { intros p Hp. eapply home_dirs_clean; eauto. }
     assert (Huser : forall d v, In d (eo_trash_dirs o) -> ev_clean (Found d v)).
     { intros d v Hd. rewrite Forall_forall in Hu. apply Hu. exact Hd. }
+    assert (Hsel : match eo_all_users o with
+      | Some pw => forall u, In u pw -> top_events ev_clean (snd u) /\ ev_clean (Found (home_trash_dir_path_from_home (fst u)) [c_slash])
+      | None => top_events ev_clean (eo_uid o)
+            /\ (forall p, In p (home_trash_dir_path_from_env (eo_environ o)) -> ev_clean (Found p [c_slash]))
+            /\ (forall d v, In d (eo_trash_dirs o) -> ev_clean (Found d v))
+      end).
+    { destruct (eo_all_users o) as [pw|].
+      - intros u _. split; [apply Htop|apply home_from_home_clean].
+      - split; [apply Htop|split; assumption]. }
     unfold empty_main.
     eapply (T_bind L); [apply (T_call_bool L); apply Hacc; exact I|]. intros tty _.
     apply (T_seq L); [|apply (T_ret L); exact I].
